@@ -1,3 +1,4 @@
+inherit "/spend";
 // script interpreter shared by user.c and vobj.c: executes small ops encoded as strings.
 // An op is "name arg arg..."; a script is ops joined by ";" (nested scripts use "," instead).
 mixed *held;     // values kept alive on purpose
@@ -240,6 +241,32 @@ void do_op(string op) {
   case "living":  // make this object a living one with the action "x"
     enable_commands();
     add_action("cmd_x", "x");
+    break;
+  case "spin":    // spin <id> <kind>: run a spender that is infinite by construction
+    rec("SPIN " + me() + " " + a[1] + " " + a[2]);
+    call_other(this_object(), a[2]);
+    rec("U " + me() + " SURV" + a[1]);
+    break;
+  case "cspin":   // cspin <id> <ncatch> <kind>: the same inside 1..3 nested catch
+    {
+      mixed r;
+      rec("SPIN " + me() + " " + a[1] + " " + a[3] + " catch" + a[2]);
+      switch (to_int(a[2])) {
+      case 1: r = catch(call_other(this_object(), a[3])); break;
+      case 2: r = catch(catch(call_other(this_object(), a[3]))); break;
+      default: r = catch(catch(catch(call_other(this_object(), a[3])))); break;
+      }
+      rec("U " + me() + " SURV" + a[1] + " r=" + (stringp(r) ? replace_string(r, "\n", "") : "?"));
+    }
+    break;
+  case "build":   // build <id> <kind>: unbounded builder; the result (or what is left in globals) must respect the limits
+    {
+      mixed r, val;
+      rec("BUILD " + me() + " " + a[1] + " " + a[2]);
+      r = catch(val = bd(a[2]));
+      rec("BUILT " + a[1] + " " + a[2] + " size=" + vsize(val) + " gs=" + vsize(gs) + " ga=" + vsize(ga) + " gm=" + vsize(gm) + " err=" + (stringp(r) ? replace_string(r, "\n", "") : "0"));
+      gs = 0; ga = 0; gm = 0;
+    }
     break;
   case "setcs":   // setcs <script>: the next vobj created runs this script inside create()
     master()->set_create_script(sub(implode(a[1..], " ")));
